@@ -237,7 +237,21 @@ pub fn gen_case(c: &mut Choices) -> Case {
     let m: Vec<Prop> = g.prop_map(1, 7);
     let enc = g.enc(&m, 0);
     let local = g.c.chance(1, 5);
-    let src = assemble_dc(&mut g, &enc, "", local, "");
+    // options the user wrote beside the derived props (an `emits` of their own does not make
+    // the props theirs)
+    let options = match g.c.pick(6) {
+        0 => {
+            g.label("user-options-with-emits");
+            ", { emits: [\"x\"] }"
+        }
+        1 => {
+            g.label("user-options-with-emits");
+            ", { \"emits\": [\"x\"], inheritAttrs: false }"
+        }
+        2 => ", { inheritAttrs: false }",
+        _ => "",
+    };
+    let src = assemble_dc_opts(&mut g, &enc, "", local, "", options);
     let mut case = Case::new(src, "tsx", Some(RT.into()));
     case.labels = g.labels.clone();
     let expected: Vec<Value> = m
